@@ -890,7 +890,7 @@ def o_c17(run):
     snap = None          # (ts, since) as the oracle tracks it
     chain = []
     restarted = False
-    walk = []
+    walks = []           # (chain expected, [(status, version id)], how) per restart
     for r in run.recs:
         m = r.meta or {}
         if r.ws[0] == 'config':
@@ -911,8 +911,13 @@ def o_c17(run):
             if iw[:1] == ['ok'] and ik.get('dir') in (None, '-'):
                 out.append(fail('C17: it keeps its data in the given directory', r, f'the directory was not created: {r.lhs[:200]}'))
             continue
+        if r.ws[0] == 'dircheck':
+            if r.impl != 'ok':
+                out.append(fail('C17: it keeps its data in the given directory', r, f'after the requests, the directory given and its surroundings: {r.impl}'))
+            continue
         if r.ws[0] == 'restart':
             restarted = True
+            walks.append((list(chain), [], 'moved to another place, ' if m.get('moved') == '1' else ''))
             if r.impl != 'ok':
                 out.append(fail('C17: a restart on the same directory serves', r, f'restart {r.impl}'))
             continue
@@ -932,20 +937,19 @@ def o_c17(run):
             got = {'-': 'none'}.get(ih.get('sr', '-'), ih.get('sr'))
             if got != want and not restarted:
                 out.append(fail('C17: it applies the given snapshot targets when requesting snapshots', r, f'days={days} versions={vers} snapshot={snap}: expected urgency {want}, got {got}'))
-            if m.get('after-restart') != '1':
-                chain.append(ih.get('vid'))
+            chain.append(ih.get('vid'))
             if snap is not None:
                 snap = (snap[0], snap[1] + 1)
         if m.get('op') == 'as' and st == 200:
             snap = (r.now or 0, 0)
-        if m.get('op') == 'walk':
-            walk.append((st, ih.get('vid')))
+        if m.get('op') == 'walk' and walks:
+            walks[-1][1].append((st, ih.get('vid')))
         if m.get('op') == 'gs' and restarted and snap is not None and st != 200:
             out.append(fail('C17: a restart on the same directory serves the same history (snapshot)', r, f'GetSnapshot after restart answered {st}'))
-    if restarted and walk:
+    for want, walk, how in walks:
         got = [v for (st, v) in walk if st == 200]
-        if got != chain or walk[-1][0] != 404:
-            out.append(fail('C17: a restart on the same directory serves the same history', None, f'chain before the kill: {chain}; walk after restart: {walk}'))
+        if walk and (got != want or walk[-1][0] != 404):
+            out.append(fail('C17: a restart on the same directory serves the same history', None, f'{how}chain before the kill: {want}; walk after restart: {walk}'))
     return out
 
 # --------------------------------------------------------------------------------------------- C19 (fixtures written by the pinned release)
